@@ -1,4 +1,4 @@
-//verif:needs core
+//verif:needs core,sip,lab
 package main
 
 // C05 - unpinned requests rotate evenly over the backends registered right now.
@@ -9,6 +9,7 @@ package main
 
 import (
 	"fmt"
+	"os"
 	"runtime"
 	"strings"
 	"sync"
@@ -420,5 +421,79 @@ func TestC05(t *testing.T) {
 		if sum != total || total != int64(nDisp*perDisp) {
 			failf(rt, "accounting: %d dispatches issued, %d recorded, backends received %d [%s]", nDisp*perDisp, total, sum, plan)
 		}
+	})
+
+	c05Lab(t)
+}
+
+// c05Lab: N unpinned requests through a real listener with k UDP backends.
+func c05Lab(t *testing.T) {
+	if os.Getenv("VERIF_RACE") != "" {
+		return
+	}
+	V.Require("lab: rotation over real backends")
+	var svcs []*stdSvc
+	for _, v := range []stdVariant{{Pool: 1}, {Pool: 3}, {Pool: 6}} {
+		s, err := newStdSvc(v)
+		if err != nil {
+			V.HarnessError(t, "cannot start lab instance: %v", err)
+		}
+		for _, b := range s.in.cfg.Listens[0].Backends {
+			_, hp, _ := strings.Cut(b, "://")
+			host, port := splitHostPort(hp)
+			s.in.hub.udpEP("backend-udp", host, port)
+		}
+		svcs = append(svcs, s)
+	}
+	rcheck(t, "lab-rotation", V.N(40, 300), func(rt *rapid.T) {
+		s := svcs[rapid.IntRange(0, len(svcs)-1).Draw(rt, "instance")]
+		entry := rapid.IntRange(0, 1).Draw(rt, "entry") // entry 0: 1/3/6 backends, entry 1: 2 backends
+		l := s.in.cfg.Listens[entry]
+		k := len(l.Backends)
+		n := rapid.IntRange(0, 60).Draw(rt, "requests")
+		ua := s.uas[rapid.IntRange(0, 3).Draw(rt, "ua")]
+		send := func(b []byte) error { return ua.sendUDP(l.Addr, l.UDPPort, b) }
+		var seq []string
+		counts := map[string]int{}
+		for i := 0; i < n; i++ {
+			id := s.nextID("c05-")
+			wire := []byte(fmt.Sprintf("OPTIONS sip:svc.test SIP/2.0\r\nVia: SIP/2.0/UDP %s:5060;branch=z9hG4bK%s\r\nFrom: <sip:a@b>;tag=1\r\nTo: <sip:svc@nomatch.example>\r\nCall-ID: %s\r\nCSeq: 1 OPTIONS\r\nContent-Length: 0\r\n\r\n", ua.ip, id, id))
+			s.model.learnRequest(s.model.transport(entry, "udp"), ua.ip, &AMsg{IsReq: true, Hdrs: []AHdr{{Kind: hVia, Vias: []AVia{{Host: ua.ip}}}}})
+			V.Journal(t.Name()+"/lab-rotation", map[string]any{"backends": k, "request": i + 1, "of": n, "so_far": seq})
+			s.in.expect(wire)
+			send(wire)
+			rs, err := s.in.settle(send, 1)
+			if _, lost := err.(labLost); lost {
+				failf(rt, "%v", err)
+			} else if err != nil {
+				V.HarnessError(rt, "%v", err)
+			}
+			got := labMessages(rs)
+			if len(got) != 1 || !s.isBackendOf(got[0].ep, entry, got[0].tcp != nil) {
+				failf(rt, "unpinned request %d of %d must reach exactly one of the %d backends; receptions:\n%s", i+1, n, k, labDescribe(got))
+			}
+			b := fmt.Sprintf("%s:%d", got[0].ep.ip, got[0].ep.port)
+			seq = append(seq, b)
+			counts[b]++
+			if len(seq) >= k {
+				w := map[string]bool{}
+				for _, x := range seq[len(seq)-k:] {
+					w[x] = true
+				}
+				if len(w) != k {
+					failf(rt, "the last %d consecutive unpinned requests over %d backends went to %v - not each backend exactly once", k, k, seq[len(seq)-k:])
+				}
+			}
+		}
+		for b, c := range counts {
+			if c < n/k || c > (n+k-1)/k {
+				failf(rt, "after %d unpinned requests over %d backends, backend %s received %d (want %d or %d): %v", n, k, b, c, n/k, (n+k-1)/k, counts)
+			}
+		}
+		V.Class("lab: rotation over real backends")
+		if n > k && k >= 2 {
+			V.NonTrivial(fmt.Sprintf("lab|%d|%d|%s", k, n, s.nextID("")))
+		}
+		V.SampleEvery(10, func() any { return map[string]any{"backends": k, "requests": n, "counts": counts} })
 	})
 }
